@@ -449,6 +449,22 @@ func flightStep(codec string, conns map[int]*flightConn, reqs map[int]*flightReq
 		select {
 		case sf := <-fc.reqs:
 			rq.stream = sf.stream
+			// what the peer decodes is what the client encoded: the request body through the
+			// independent decoder (OPTIONS is never compressed and has no body)
+			body := sf.body
+			if sf.flags&1 == 1 {
+				var err error
+				if body, err = indepDecode(codec, body); err != nil {
+					return "request-undecodable"
+				}
+			}
+			want := map[string][]byte{"rows": []byte("SELECT v FROM k.t"), "opt": {}}[rq.kind]
+			if want == nil {
+				want = []byte{0, 1, 0, 1, 'E'}
+			}
+			if (rq.kind == "opt") != (sf.flags&1 == 0) || !bytes.Contains(body, want) || (rq.kind == "opt" && len(body) != 0) {
+				return "request-corrupt"
+			}
 			return "ok"
 		case <-rq.ret:
 			return "returned-before-response"
